@@ -389,6 +389,40 @@ def explore_shard(acc, shard):
             acc.sample(layer, {"sizes": list(sizes)})
         finally:
             env.close()
+    elif kind == "ZS":
+        # scale texts through every entry point: multi-byte characters whose bytes straddle a buffer size (files are
+        # written as UTF-8), metacharacters at the offsets just before 4096 / 8192, long one-line lists, many charts
+        _, part, nparts = shard
+        layer = "Z scale texts"
+        env = Env()
+        try:
+            texts = []
+            for n in (4096, 8192):
+                for ch in ("\u00e9", "\u3042", "\U0001d11e"):
+                    for d in range(0, len(ch.encode("utf-8")) + 1):
+                        texts.append((f"{ch!r} starting at byte {n - d}", "#A:" + "0" * (n - 3 - d) + ch + ";\n#B:c;\n"))
+                        texts.append((f"{ch!r} starting at byte {n - d} (SSC)", "#VERSION:0.83;\n#A:" + "0" * (n - 18 - d) + ch + ";\n#B:c;\n"))
+            for fmt in ("sm", "ssc"):
+                for label, model in X.scale_models(fmt):
+                    if any(label.endswith(f"offset {o}") for o in (4095, 4096, 8191, 8192)) or "700 entries" in label or "130 charts" in label:
+                        texts.append((f"{fmt}: {label}", X.model_text(model)))
+            case = None
+            for i, (label, text) in enumerate(texts):
+                if i % nparts != part:
+                    continue
+                case = {"kind": "text", "text": text, "files": True, "native": True}
+                core.guard(acc, {"kind": "text", "text": text[:60] + "...", "label": label})
+                fails, m, excluded = check_text(text, env, True, True)
+                acc.count("states")
+                acc.count("transitions")
+                acc.count("evaluations", m)
+                acc.count("nontrivial")
+                acc.outcome("scale text through every entry point")
+                if fails:
+                    report(acc, layer, case, [dict(f, expected="(long)" if len(str(f["expected"])) > 300 else f["expected"], observed="(long)" if len(str(f["observed"])) > 300 else f["observed"]) for f in fails])
+            acc.sample(layer, {"texts": len(texts)})
+        finally:
+            env.close()
     elif kind == "corpus":
         _, idx = shard
         rel, path = X.corpus_files()[idx]
@@ -444,6 +478,8 @@ def explore(run):
     sizes = [63, 64, 255, 256, 511, 512, 1000, 1016, 1023, 1024, 1025, 2047, 2048, 4095, 4096, 4097, 8191, 8192, 8193, 16384, 65536, 70000]
     for i in range(0, len(sizes), 2):
         shards.append(("Z", tuple(sizes[i:i + 2])))
+    for part in range(8):
+        shards.append(("ZS", part, 8))
     shards += [("corpus", i) for i in range(len(X.corpus_files()))]
     k = run.seed % len(shards)
     shards = shards[k:] + shards[:k]
@@ -458,6 +494,7 @@ def explore(run):
         f"and (layer P) real open files and simfile.open for names {NAMES} on MemoryFS (every text) and the native filesystem (every text in thorough, a fixed stride in quick; always for BOM texts); "
         "K: SSCChart.from_str on 5 heads x <=3 of 11 chart pieces; M: SMChart.from_msd/from_str on all component lists of length <= 6 over 5 values and of length 7, 8 over 4 (incl. a colon inside a component and a backslash before the separating colon); corpus files and three systematic variants. "
         "Non-trivial = >= 2 parameters with a duplicate, lower-case, key-only or multi-component parameter, a chart, or stray text."
+        + " ZS: scale texts through every entry point - 2/3/4-byte characters at every byte offset straddling 4096 and 8192, metacharacters at the offsets next to them, one-line lists of 700 entries, 130 charts."
     )
     run.assumptions = [
         "msdparser.parse_msd is the trusted tokenizer the rules are applied to",
@@ -465,6 +502,7 @@ def explore(run):
         "texts on which the tokenizer fails an internal assertion (trailing backslash) are excluded and counted",
         "file-based entry points see the text after universal-newline translation",
     ]
+    core.require(acc.outcomes["scale text through every entry point"] > 0, "no scale text")
     core.require(acc.outcomes["text with stray text"] > 0, "no stray text")
     core.require(acc.outcomes["auto-detected as SSC"] > 0, "no SSC detection")
     core.require(acc.outcomes["auto-detected as SM"] > 0, "no SM detection")
